@@ -16,6 +16,9 @@
  * MODE 2 (address length boundary): one address of exactly L non-NUL bytes, L concrete
  *   per query (1001..1004), as sender (WHO 0) or as recipient (WHO 1).
  * MODE 3 (alarm handler): sigalrm() touches nothing and exits 52.
+ * MODE 4 (alarm at any instant): as MODE 0 without injected failures, but SIGALRM arrives
+ *   just before a symbolic system call; whatever the handler does, the durable-state
+ *   invariant must survive (in particular nothing may be cleaned up after the commit).
  */
 #include "verif.h"
 #include <errno.h>
@@ -59,6 +62,7 @@ unsigned int bodylen;
 unsigned int body_errpos;
 unsigned char tape[TAPE];     /* one byte per nondeterministic environment decision */
 unsigned char fill;           /* MODE 2: the byte the long address is made of */
+unsigned int alarm_at;        /* MODE 0: SIGALRM arrives just before system call number alarm_at (none if out of range) */
 
 void sym_inputs(void)
 {
@@ -66,7 +70,7 @@ void sym_inputs(void)
 #include "replay_inputs.inc"
 #else
   SYM_ARR(env); SYM(envlen); SYM(env_errpos); SYM_ARR(body); SYM(bodylen); SYM(body_errpos);
-  SYM_ARR(tape); SYM(fill);
+  SYM_ARR(tape); SYM(fill); SYM(alarm_at);
 #endif
 }
 
@@ -122,9 +126,15 @@ static int ref_envelope(unsigned int *consumed)
 }
 
 /* durable-state invariant; evaluated before every system call = at every crash instant */
+static int alarm_fired;
 static void crash_check(void)
 {
   ++nstub;
+#if MODE == 4
+  /* the 24 h alarm may go off at any instant: run the handler the program installed */
+  /* (called by name: a call through the pointer makes cbmc split over every void(void) function) */
+  if (nstub == alarm_at && alarm_handler == (void (*)(void)) sigalrm && !alarm_fired) { alarm_fired = 1; sigalrm(); }
+#endif
   if (todo_x) {
     V(1, committed);                                    /* todo only through the checked commit point */
     V(2, mess_x && intd_x);                             /* S3: mess + intd + todo */
@@ -398,8 +408,11 @@ static void end_of_run(int status)
   CHECK(viol != 33, "C02: the message file is named after the inode number of the file itself (mess/<ino mod split>/<ino>)");
   CHECK(viol == 0 || (viol >= 1 && viol <= 6) || viol == 10 || viol == 11 || viol == 12 || viol == 13 || viol == 14 || viol == 33 ||
         (viol >= 20 && viol <= 26), "model: unexpected call shape (harness sizing / stub contract)");
-  CHECK((status == 0) == (todo_x != 0), "C01(c): exit status 0 if and only if todo/N exists");
-  if (fault_code) {
+  CHECK(status != 0 || todo_x, "C01(c): exit status 0 only if todo/N exists");
+  CHECK(!todo_x || status == 0 || alarm_fired, "C01(c): a scheduled message is reported as success (unless the alarm killed the run after the commit)");
+  if (alarm_fired) {
+    CHECK(status == 52, "C01: a run killed by SIGALRM exits 52");
+  } else if (fault_code) {
     CHECK(status == fault_code, "C01(c): an injected failure yields its documented exit code");
   } else {
     CHECK(status == ref, "C01(c): exit code follows the envelope grammar (0, 91, 11, 54)");
@@ -419,6 +432,10 @@ static void end_of_run(int status)
   }
 #endif
   if (status == 0) WITNESS("queued");
+#if MODE == 4
+  if (alarm_fired && todo_x) WITNESS("alarm_after_commit");
+  if (alarm_fired && !todo_x && mess_x) WITNESS("alarm_before_commit");
+#endif
 #if MODE == 0
   if (status == 91) WITNESS("exit91_bad_letter");
   if (status == 54) WITNESS("exit54_eof");
